@@ -40,6 +40,17 @@ add("C04", "model_checking",
     "Trusted: raw-state observers of the adapters; generic snapshot/restore. open_deposit_mint / burn_and_withdraw are judged as single transactions.",
     "DESIGN.md §5 C04")
 
+add("C10", "model_checking",
+    "explicit-state DFS over supply/withdraw/borrow/repay and bar advances on the real AaveV3Market, lock-step against an exact ledger of scaled lots, plus split/merge/commutation differentials from every reached state",
+    "All event sequences within the depth/deviation bound over three tokens whose liquidity and borrow indices follow different non-decreasing paths; after every accepted event position amounts, open entries, wallet and the action record are compared with a Fraction ledger (balance = sum amount_j x index_now/index_j); from every reached state supply/withdraw/repay split-vs-merged and interposed-operation differentials are executed on snapshots.",
+    "Trusted: the ledger model in mc/checks/c10.py and the harness's own index frames. Tolerance 1e-18 absolute as stated by the property.",
+    "DESIGN.md §5 C10")
+add("C13", "model_checking",
+    "explicit-state DFS over interleavings of view reads (which fill the memoised caches) and writes on the real AaveV3Market; dedup key includes the cache fill pattern; all views compared with a from-scratch recomputation on a snapshot",
+    "Reads of single derived views / all views are events of the alphabet; writes are supply, withdraw, borrow, repay (cash / collateral), change_collateral (each also in a rejected variant), bar advance and a liquidating bar, from four seeded portfolios; after every event every view (listed supplies/borrows with flags, value dicts, totals, health factor, LTVs, APYs, market balance) is recomputed from raw positions, the harness's index frames, prices and risk table.",
+    "Trusted: the recomputation in mc/worlds/aave.py (ref_positions / ref_risk) and mc/checks/c13.py; snapshot/restore so that the oracle does not perturb cache state.",
+    "DESIGN.md §5 C13")
+
 _PENDING = "check not built yet in this round (planned: bounded exhaustive exploration, see DESIGN.md §5); listed here until its check is registered"
 for _i in range(1, 21):
     _p = f"C{_i:02d}"
